@@ -58,6 +58,69 @@ def _work(args):
     return out
 
 
+def witnesses(ck):
+    """Integration witnesses -- concrete runs of the real API, NOT the deciding step: result assembly,
+    debug, extra columns and index labels are pandas/dags behaviour that the encoder does not see.
+    A witness population is simulated under several configurations and compared per person."""
+    import warnings
+    import numpy
+    import pandas as pd
+    from gettsim import compute_taxes_and_transfers
+    from _gettsim.config import DEFAULT_TARGETS
+    from _gettsim.synthetic import create_synthetic_data
+    date = datetime.date(2023, 7, 1)
+    P, F = gt.env(date)
+    with warnings.catch_warnings():
+        warnings.simplefilter("ignore")
+        df = create_synthetic_data(n_adults=2, n_children=2, policy_year=2023,
+                                   specs_heterogeneous={"bruttolohn_m": [[1800.0, 0.0, 0.0, 0.0], [5200.0, 900.0, 0.0, 0.0]]})
+        df = df.reset_index(drop=True)
+        n = len(df)
+        targets = [t for t in DEFAULT_TARGETS]
+
+        def run(data, tg, **kw):
+            return compute_taxes_and_transfers(data, P, F, targets=tg, **kw)
+        base = run(df, targets)
+        bad = []
+        ck.obligations += 1
+        runs = 1
+        # (a) single targets and a pair
+        for tg in (["eink_st_y_sn"], ["kindergeld_m"], ["arbeitsl_geld_2_m_bg", "wohngeld_m_wthh"]):
+            out = run(df, tg)
+            runs += 1
+            if list(out.columns) != sorted(tg, key=list(out.columns).index) or len(out) != n:
+                bad.append(f"targets={tg}: columns {list(out.columns)} / {len(out)} rows")
+            for t in tg:
+                if not numpy.allclose(out[t].to_numpy(dtype=float), base[t].to_numpy(dtype=float), rtol=0, atol=1e-9, equal_nan=True):
+                    bad.append(f"value of {t} depends on the requested targets")
+        # (b) debug, (c) permuted rows with a non-default, non-contiguous index, (d) unused extra column
+        perm = numpy.random.RandomState(common.SEED + 7).permutation(n)
+        shuffled = df.iloc[perm].copy()
+        shuffled.index = [100 + 7 * int(i) for i in perm]
+        extra = df.assign(unbenutzte_spalte_xyz=1.0)
+        for label, data, kw, order in (("debug=True", df, {"debug": True}, numpy.arange(n)),
+                                       ("permuted rows + sparse index", shuffled, {}, perm),
+                                       ("permuted rows + sparse index + debug", shuffled, {"debug": True}, perm),
+                                       ("unused extra column", extra, {}, numpy.arange(n))):
+            out = run(data, targets, **kw)
+            runs += 1
+            if len(out) != n:
+                bad.append(f"{label}: {len(out)} rows for {n} input rows")
+                continue
+            for t in targets:
+                if not numpy.allclose(out[t].to_numpy(dtype=float), base[t].to_numpy(dtype=float)[order], rtol=0, atol=1e-9, equal_nan=True):
+                    bad.append(f"{label}: {t} differs per person from the plain run")
+                    break
+            if kw.get("debug") and "p_id" in out.columns and list(out["p_id"]) != list(data["p_id"]):
+                bad.append(f"{label}: input columns are not in input order")
+    ck.extra["integration_witness_runs"] = runs
+    if not bad:
+        ck.discharged += 1
+    else:
+        for b in bad[:3]:
+            ck.violation(["witness", b.split(":")[0]], f"integration witness (2 households, {date}): {b}", {"witness": True})
+
+
 def candidates(date):
     d = symdag.Dag(date)
     names = [n for n in d.all_functions if not n.endswith("_params")]
@@ -105,6 +168,7 @@ def run(tier):
         for dtext in res["diffs"][:3]:
             ck.violation(["definition-depends-on-configuration", dtext.split(":")[0]], f"target {t} at {date} ({cfg}): {dtext}",
                          {"date": str(date), "t": t, "other": other, "minimal": minimal})
+    witnesses(ck)
     ck.bounds = {"configuration_pairs": len(jobs), "dates": [str(d) for d in dates],
                  "outside": "result assembly (_prepare_results), debug=True, check_minimal_specification, row count/order of the returned frame: pandas/dags behaviour, not encodable"}
     ck.assumptions = ["values are functions of node definitions and parent values (dags evaluates the pruned graph in topological order)"]
@@ -116,6 +180,10 @@ def run(tier):
 
 def replay(path):
     d = json.load(open(path))["replay"]
+    if d.get("witness"):
+        ck = common.Check("C04", "quick")
+        witnesses(ck)
+        return 1 if ck.violations else 0
     res = _work((datetime.date.fromisoformat(d["date"]), d["t"], d["other"], d["minimal"]))
     print(res)
     return 1 if res["diffs"] else 0
